@@ -3,9 +3,11 @@
 import json, sys
 pid = sys.argv[1]
 prop = next(json.loads(l) for l in open('/verif/properties.jsonl') if json.loads(l)['id'] == pid)
-wt = f'/tmp/seed/{pid}'
-out = f'/tmp/seed/out_{pid}'
-print(f"""You are testing how well a verification effort detects realistic regressions in the Python project formlio/forml (an ML lifecycle framework). You have your own scratch git worktree of the project at {wt} (detached HEAD). Work ONLY inside {wt} and write deliverables to {out}. Never read or touch /repo, /verif, or other directories under /tmp/seed. Run python as `cd {wt} && PYTHONPATH={wt} /venv/bin/python -W ignore ...` (check `import forml; forml.__file__` points into {wt}). There is no network.
+import os
+base = os.environ.get('SEEDBASE', '/tmp/seed')
+wt = f'{base}/{pid}'
+out = f'{base}/out_{pid}'
+print(f"""You are testing how well a verification effort detects realistic regressions in the Python project formlio/forml (an ML lifecycle framework). You have your own scratch git worktree of the project at {wt} (detached HEAD). Work ONLY inside {wt} and write deliverables to {out}. Never read or touch /repo, /verif, or other directories under {base}. Never use `git stash` (the stash is shared between worktrees). Run python as `cd {wt} && PYTHONPATH={wt} /venv/bin/python -W ignore ...` (check `import forml; forml.__file__` points into {wt}). There is no network.
 
 The semantic property under study ({pid}: {prop['title']}):
 
@@ -18,7 +20,7 @@ WHY EXISTING TESTS CANNOT SETTLE IT: {prop['why_tests_cant']}
 RELEVANT FILES: {', '.join(prop['anchors']['files'])}
 MECHANISMS: {json.dumps(prop['anchors']['mechanism'])}
 
-YOUR TASK: produce TWO different, independent small source changes (mutations) to forml (under {wt}/forml) each of which BREAKS this property while the project still imports and the EXISTING test suite still passes. The mutations should look like plausible developer mistakes or plausible "refactorings" (off-by-one, wrong operator, swapped arguments, dropped rollback, wrong ordering, stale cache, mishandled edge value...), and should need something SPECIFIC to manifest: an unusual input, a multi-step sequence of operations, a particular order, an edge value, or two cooperating sites that each look fine alone - NOT something ordinary use would expose at once. The two mutations should hit different mechanisms of the property if possible.
+YOUR TASK: produce TWO different, independent small source changes (mutations) to forml (under {wt}/forml) each of which BREAKS this property while the project still imports and the EXISTING test suite still passes. The mutations should look like plausible developer mistakes or plausible "refactorings" (off-by-one, wrong operator, swapped arguments, dropped rollback, wrong ordering, stale cache, mishandled edge value...), and should need something SPECIFIC to manifest: an unusual input, a multi-step sequence of operations, a particular order, an edge value, or two cooperating sites that each look fine alone - NOT something ordinary use would expose at once. Prefer subtle semantic slips deep in a less-travelled branch over blunt ones (a change that makes the common path visibly wrong is of no use). The two mutations should hit different mechanisms of the property if possible.
 
 For each mutation i in {{A, B}} deliver in {out}:
   - patch{{i}}.diff : `git -C {wt} diff` of ONLY that mutation (start each from a clean tree: `git -C {wt} checkout -- .`)
